@@ -284,16 +284,94 @@ fn random_ids(rng: &mut Rng, n: usize, max: usize) -> Vec<usize> {
 }
 
 fn random_gen(rng: &mut Rng) -> (u64, u64) {
-    match rng.below(6) {
+    match rng.below(10) {
         0 => (0, INF),
         1 => (1, 2),
         2 => (1, INF),
-        3 => {
+        3 => (0, 2),
+        4 => (1, 3),
+        5 => (2, 4),
+        6 => (2, 3),
+        7 => (0, 3),
+        8 => {
             let lo = rng.below(3) as u64;
             (lo, lo + 1 + rng.below(3) as u64)
         }
-        4 => (2, 3),
         _ => (rng.below(4) as u64, INF),
+    }
+}
+
+/// DAG in which index position order (= id order, commits are written in id
+/// order) and generation order disagree: long branches are written before
+/// short ones from the same base; some merges of branch tips at the end.
+pub fn branchy_dag(rng: &mut Rng, n: usize) -> Vec<Vec<usize>> {
+    let mut par: Vec<Vec<usize>> = vec![];
+    let mut tips: Vec<usize> = vec![];
+    let base = if n >= 6 && rng.chance(1, 2) {
+        par.push(vec![0]);
+        1
+    } else {
+        0
+    };
+    let merges = if n >= 5 { rng.below(3) } else { 0 };
+    let mut left = n - par.len() - merges;
+    let mut len = (left * 2 / 3).max(1);
+    while left > 0 {
+        let l = len.min(left);
+        let mut prev = base;
+        for _ in 0..l {
+            par.push(vec![prev]);
+            prev = par.len();
+        }
+        tips.push(prev);
+        left -= l;
+        len = (len / 2).max(1);
+    }
+    for _ in 0..merges {
+        let mut ps: Vec<usize> = vec![];
+        for _ in 0..2 {
+            let p = *rng.pick(&tips);
+            if !ps.contains(&p) {
+                ps.push(p);
+            }
+        }
+        if ps.len() == 1 {
+            let q = rng.range(1, par.len());
+            if q != ps[0] {
+                ps.push(q);
+            }
+        }
+        par.push(ps);
+        tips.push(par.len());
+    }
+    par
+}
+
+/// Generation-bounded descendants / children / ancestors over a multi-element set.
+fn focus_expr(rng: &mut Rng, n: usize) -> Value {
+    const RANGES: [(u64, u64); 6] = [(0, 2), (1, 3), (2, 4), (2, 3), (1, 2), (0, 3)];
+    let (lo, hi) = *rng.pick(&RANGES);
+    let k = rng.range(2, 3.min(n));
+    let mut ids: Vec<usize> = (0..k).map(|_| rng.range(1, n)).collect();
+    ids.sort();
+    ids.dedup();
+    let x = if rng.chance(1, 4) {
+        json!({"t":"union","a":{"t":"commits","ids":[ids[0]]},"b":{"t":"commits","ids":ids[1..].to_vec()}})
+    } else {
+        json!({"t":"commits","ids":ids})
+    };
+    let inner = if rng.chance(2, 3) {
+        json!({"t":"desc","x":x,"lo":lo,"hi":hi})
+    } else {
+        json!({"t":"anc","x":x,"lo":lo,"hi":hi,"plo":0,"phi":INF})
+    };
+    match rng.below(5) {
+        0 => json!({"t":"heads","x":inner}),
+        1 => {
+            let (l2, h2) = *rng.pick(&RANGES);
+            json!({"t":"desc","x":inner,"lo":l2,"hi":h2})
+        }
+        _ => inner,
     }
 }
 
@@ -313,7 +391,8 @@ pub fn random_expr(rng: &mut Rng, n: usize, depth: usize, forms: &[&str]) -> Val
             1 => json!({"t":"none"}),
             2 => json!({"t":"root"}),
             3 => json!({"t":"vheads"}),
-            _ => json!({"t":"commits","ids":random_ids(rng, n, 3)}),
+            4 | 5 => json!({"t":"commits","ids":random_ids(rng, n, 1)}),
+            _ => json!({"t":"commits","ids":random_ids(rng, n, 4)}),
         };
     }
     let f = *rng.pick(forms);
@@ -364,10 +443,26 @@ pub fn random(opts: &Opts) -> Result<(), String> {
         if forms_opt.is_empty() { ALL_FORMS.to_vec() } else { forms_opt.split(',').collect() };
     for i in 0..ncases {
         let mut rng = Rng::new(seed.wrapping_mul(7919).wrapping_add(i as u64));
-        let n = rng.range(2, maxn);
-        let par = random_dag(&mut rng, n);
+        // the first cases of every run are scripted: a long branch written before a
+        // short one (from the root; from a common base with a merge; three branches)
+        let scripted: [&[&[usize]]; 3] = [
+            &[&[0], &[1], &[2], &[0], &[4], &[5]],
+            &[&[0], &[1], &[2], &[3], &[1], &[4, 5]],
+            &[&[0], &[1], &[2], &[3], &[4], &[0], &[6], &[7], &[0], &[9], &[5, 8]],
+        ];
+        let par: Vec<Vec<usize>> = if i < scripted.len() {
+            scripted[i].iter().map(|p| p.to_vec()).collect()
+        } else if i % 2 == 1 {
+            let n = rng.range(4, maxn);
+            branchy_dag(&mut rng, n)
+        } else {
+            let n = rng.range(2, maxn);
+            random_dag(&mut rng, n)
+        };
+        let n = par.len();
         // visible heads: a random set of commits (jj normalises it; the REAL view heads are logged)
-        let mut vh: Vec<usize> = (1..=n).filter(|_| rng.chance(1, 3)).collect();
+        let mut vh: Vec<usize> =
+            if i < scripted.len() { (1..=n).collect() } else { (1..=n).filter(|_| rng.chance(1, 3)).collect() };
         if vh.is_empty() {
             vh.push(rng.range(1, n));
         }
@@ -375,7 +470,18 @@ pub fn random(opts: &Opts) -> Result<(), String> {
         let mut ts: Vec<i64> = (1..=n as i64).collect();
         rng.shuffle(&mut ts);
         let pad = if rng.chance(1, 3) { rng.range(55, 70) } else { 0 };
-        let exprs: Vec<Value> = (0..per).map(|_| { let d = rng.range(1, depth); random_expr(&mut rng, n, d, &forms) }).collect();
+        let exprs: Vec<Value> = (0..per)
+            .map(|k| {
+                // a third of the expressions (all of them on the scripted shapes' first half)
+                // are generation-bounded walks from multi-element sets
+                if n >= 2 && (k % 3 == 0 || (i < scripted.len() && k % 2 == 0)) {
+                    focus_expr(&mut rng, n)
+                } else {
+                    let d = rng.range(1, depth);
+                    random_expr(&mut rng, n, d, &forms)
+                }
+            })
+            .collect();
         let c = json!({"par":par,"vh":vh,"ts":ts,"pad":pad,"exprs":exprs});
         run_case_guarded(&mut out, 100_000 + i, &c, &mut rng, i % 2 == 1);
     }
